@@ -6,9 +6,13 @@
 (* array-valued).                                                          *)
 (*  Mode "h5":     SaveLoadH5 is the identity on the abstract image, for   *)
 (*                 any number of cycles (state merging on cycles).         *)
-(*  Mode "tiff":   SaveLoadTiff(depth) keeps metadata and spacing; values  *)
-(*                 are quantised: error <= half a step of (max-min)/(2^b-1)*)
-(*                 with b the usable bits (8, 15, 31).                     *)
+(*  Mode "tiff":   SaveLoadTiff(depth, scaling) keeps metadata and spacing; *)
+(*                 values are quantised: error <= half a step of           *)
+(*                 range/(2^b-1) with b the usable bits (8, 15, 31) and    *)
+(*                 range what the scaling option spreads over the grey     *)
+(*                 levels: the image's own (max-min) for 'auto' or a pair  *)
+(*                 equal to it, the pair's width for a wider pair, 1 for   *)
+(*                 scaling=None on an image within [0, 1].                 *)
 (*  Mode "update": UpdateMetadata(K) changes exactly the keys in K.        *)
 (*  Mode "average": Push(f) files of a multiset; the result is a function  *)
 (*                 of the multiset (VIEW), mean exact in integers/count.   *)
@@ -31,7 +35,9 @@ LabelOrders(c) == IF c = 1 THEN {"none"} ELSE IF c = 2 THEN {"rg", "gb", "br", "
 
 Images == {[shape |-> s, dtype |-> d, channels |-> c, named |-> n, attrs |-> a] :
              s \in Shapes, d \in Dtypes, c \in {1, 2, 3}, n \in BOOLEAN, a \in [Keys -> AttrKinds]}
-ValidImage(i) == /\ (i.channels = 1 => \A k \in Keys : i.attrs[k] \in {"none", "scalar", "scalar_zero"})
+PerChannel(i) == \E k \in Keys : i.attrs[k] \in {"per_channel_dict", "per_channel_array"}
+\* channels = 1 with some per-channel value: an image that HAS an illumination axis, of one label
+ValidImage(i) == /\ TRUE
                  /\ (\A k \in Keys : i.attrs[k] = "scalar_zero" => k = "noise_sd")   \* the only key for which 0 is meaningful
                  /\ i.attrs["medium_index"] \in {"none", "scalar"}
                  /\ (i.attrs["illum_polarization"] # "per_channel_array")
@@ -42,13 +48,14 @@ Init ==
   /\ steps = 0
   /\ \/ Mode = "h5" /\ img \in {i \in Images : ValidImage(i)} /\ hist = <<>>
      \/ Mode = "tiff" /\ hist = <<>>        \* a 1 x N image has no spacing to store
-        /\ img \in {i \in Images : ValidImage(i) /\ i.channels = 1 /\ i.shape \in {"2x3", "4x5", "5x4"}}
+        /\ img \in {i \in Images : ValidImage(i) /\ i.channels = 1 /\ ~PerChannel(i) /\ i.shape \in {"2x3", "4x5", "5x4"}}
      \/ Mode = "tiffcolour" /\ hist = <<>>  \* colour export: channel layout x per-channel metadata
         /\ img \in {[base |-> i, labels |-> l] : i \in {j \in Images : ValidImage(j) /\ j.channels > 1 /\ j.shape = "4x5"
                                                                  /\ j.dtype \in {"uint8", "float64"} /\ j.named},
                                                 l \in {"rg", "gb", "br", "ab", "rgb", "grb"}}
         /\ img.labels \in LabelOrders(img.base.channels)
-     \/ Mode = "update" /\ img \in {i \in Images : ValidImage(i) /\ i.shape = "2x3" /\ i.dtype = "float64" /\ i.named}
+     \/ Mode = "update" /\ img \in {i \in Images : ValidImage(i) /\ (i.channels = 1 => ~PerChannel(i))
+                                                   /\ i.shape = "2x3" /\ i.dtype = "float64" /\ i.named}
         /\ hist = <<>>
      \/ Mode = "average" /\ img = [f \in 1..4 |-> 0] /\ hist = <<>>
      \/ Mode = "raster" /\ img \in [shape : {"2x3", "4x5"}, colour : BOOLEAN,
@@ -59,9 +66,13 @@ SaveLoadH5 == \/ /\ Mode = "h5" /\ steps < MaxCycles
               \* the average of at least two files is an image like any other: it survives the HDF5 cycle
               \/ /\ Mode = "average" /\ steps >= 2 /\ steps <= MaxCycles + 1
                  /\ hist' = Append(hist, 0) /\ steps' = MaxCycles + 2 /\ UNCHANGED img
-SaveLoadTiff(depth) == /\ Mode \in {"tiff", "tiffcolour"} /\ steps < 1
-                       /\ (Mode = "tiffcolour" => depth = 8)        \* 16-bit colour is not a TIFF the imaging library writes
-                       /\ hist' = Append(hist, <<"tiff", depth, UsableBits(depth)>>)
+Scalings == {"auto", "pair_tight", "pair_wide", "none_unit"}
+RangeOf(sc) == IF sc \in {"auto", "pair_tight"} THEN "image" ELSE IF sc = "pair_wide" THEN "pair" ELSE "unit"
+SaveLoadTiff(depth, sc) ==
+                       /\ Mode \in {"tiff", "tiffcolour"} /\ steps < 1
+                       /\ (Mode = "tiffcolour" => (depth = 8 /\ sc = "auto"))   \* 16-bit colour is not a TIFF the imaging library writes
+                       /\ (sc = "none_unit" => img.dtype \in {"float32", "float64"})
+                       /\ hist' = Append(hist, <<"tiff", depth, UsableBits(depth), RangeOf(sc)>>)
                        /\ steps' = steps + 1 /\ UNCHANGED img
 \* form: the new polarisation is written with two or with three components (not unit length either way)
 UpdateMetadata(K, form) == /\ Mode = "update" /\ steps < 1 /\ K # {}
@@ -73,7 +84,7 @@ Push(f) == /\ Mode = "average" /\ steps < MaxCycles + 1
            /\ hist' = Append(hist, f) /\ steps' = steps + 1
 
 Next == \/ SaveLoadH5
-        \/ \E d \in {8, 16} : SaveLoadTiff(d)          \* the documented depths
+        \/ \E d \in {8, 16}, sc \in Scalings : SaveLoadTiff(d, sc)          \* the documented depths
         \/ \E K \in SUBSET Keys, f \in {"two_components", "three_components"} : UpdateMetadata(K, f)
         \/ \E f \in 1..4 : Push(f)
 Spec == Init /\ [][Next]_vars
